@@ -2608,10 +2608,87 @@ def decorator_definition_kind(fn):
     return analyse_decorator(fn)[0]
 
 
-def context_decorator(A, u):
-    """`@precision(prec=N)`: the decorator resolves to a definition in the analysed packages that - checked on every run -
-    scopes the decimal context around the decorated call (see analyse_decorator) -> description, else None
-    (a decorator whose definition does not do this gives NO context: what it decorates is uncovered)"""
+class _NotConstant(Exception):
+    pass
+
+
+def const_value(A, m, c, e, depth=0):
+    """evaluate a constant expression through the index without executing anything: literals, module-level names (also
+    through imports and star chains), class attributes (`Cls.X`, `module.X`, names of the enclosing class body), simple
+    arithmetic, int()/float()/len() of such.  Raises _NotConstant when the value cannot be determined."""
+    if depth > 12:
+        raise _NotConstant('definition chain too deep')
+    if isinstance(e, ast.Constant):
+        return e.value
+    if isinstance(e, ast.Name):
+        if c is not None and e.id in c.attrs:
+            return const_value(A, c.mod, c, c.attrs[e.id], depth + 1)
+        res = A.idx.resolve(m, e.id)
+        if res is None or res[0] != 'const':
+            raise _NotConstant('%s is not a module-level constant' % e.id)
+        src = res[1]
+        # bindings at module level only: a decorator argument is evaluated at import; a function that rebinds the name
+        # later (`global X; X = ..`) is a C02.shared-write site of its own
+        n_assign = sum(1 for st in A._module_level_nodes(src) if isinstance(st, (ast.Assign, ast.AugAssign, ast.AnnAssign))
+                       for t in (st.targets if isinstance(st, ast.Assign) else [st.target])
+                       if isinstance(t, ast.Name) and t.id == e.id
+                       and not (isinstance(st, ast.AnnAssign) and st.value is None))
+        if n_assign != 1:
+            raise _NotConstant('%s is bound %d times in %s' % (e.id, n_assign, src.rel))
+        return const_value(A, src, None, res[2], depth + 1)
+    if isinstance(e, ast.Attribute) and isinstance(e.value, ast.Name):
+        res = A.idx.resolve(m, e.value.id)
+        if res is not None and res[0] == 'class':
+            k, node = A.idx.class_attr(res[1], e.attr)
+            if node is None:
+                raise _NotConstant('%s.%s is not a class-level definition' % (e.value.id, e.attr))
+            return const_value(A, k.mod, k, node, depth + 1)
+        if res is not None and res[0] == 'module' and res[1] is not None:
+            return const_value(A, res[1], None, ast.Name(id=e.attr, ctx=ast.Load()), depth + 1)
+        raise _NotConstant('%s is not a class or module of the analysed packages' % e.value.id)
+    if isinstance(e, ast.UnaryOp) and isinstance(e.op, (ast.USub, ast.UAdd)):
+        v = const_value(A, m, c, e.operand, depth + 1)
+        if isinstance(v, (int, float)) and not isinstance(v, bool):
+            return -v if isinstance(e.op, ast.USub) else v
+        raise _NotConstant('unary operator on %r' % (v,))
+    if isinstance(e, ast.BinOp) and isinstance(e.op, (ast.Add, ast.Sub, ast.Mult, ast.FloorDiv, ast.Mod, ast.Pow, ast.Div)):
+        x = const_value(A, m, c, e.left, depth + 1)
+        y = const_value(A, m, c, e.right, depth + 1)
+        if not all(isinstance(v, (int, float)) and not isinstance(v, bool) for v in (x, y)):
+            raise _NotConstant('arithmetic on %r and %r' % (x, y))
+        try:
+            if isinstance(e.op, ast.Add):
+                return x + y
+            if isinstance(e.op, ast.Sub):
+                return x - y
+            if isinstance(e.op, ast.Mult):
+                return x * y
+            if isinstance(e.op, ast.FloorDiv):
+                return x // y
+            if isinstance(e.op, ast.Mod):
+                return x % y
+            if isinstance(e.op, ast.Div):
+                return x / y
+            if abs(y) <= 64 and abs(x) <= 10 ** 6:
+                return x ** y
+        except (ZeroDivisionError, OverflowError) as ex:
+            raise _NotConstant(str(ex))
+        raise _NotConstant('power too large')
+    if isinstance(e, ast.Call) and isinstance(e.func, ast.Name) and e.func.id in ('int', 'float', 'len', 'abs') \
+            and len(e.args) == 1 and not e.keywords:
+        v = const_value(A, m, c, e.args[0], depth + 1)
+        try:
+            return {'int': int, 'float': float, 'len': len, 'abs': abs}[e.func.id](v)
+        except (TypeError, ValueError) as ex:
+            raise _NotConstant(str(ex))
+    raise _NotConstant('%s expression' % type(e).__name__)
+
+
+def scoping_decorator_state(A, u):
+    """-> (description | None, problem | None) for the scoping (context) decorators on u.
+    description: '@precision(prec=15)' - the call runs under an explicit context of that precision;
+    problem: the decorator is a scoping one but the precision it is given evaluates to something a Decimal context
+    cannot take (non-int / < 1): every decorated call raises, no context is ever established."""
     for d in u.node.decorator_list:
         if not isinstance(d, ast.Call):
             continue
@@ -2619,11 +2696,26 @@ def context_decorator(A, u):
         if fn is None or decorator_definition_kind(fn) != 'context':
             continue
         prec = [k.value for k in d.keywords if k.arg == 'prec']
-        if prec and isinstance(prec[0], ast.Constant) and isinstance(prec[0].value, int) and prec[0].value > 0:
-            return '@%s(prec=%d)' % (fn.name, prec[0].value)
-        raise AnalysisError('%s:%d decorator %s sets a Decimal context but its precision argument is not a positive integer '
-                            'literal' % (u.mod.rel, d.lineno, ast.unparse(d)))
-    return None
+        if not prec:
+            raise AnalysisError('%s:%d decorator %s scopes a Decimal context but is given no `prec=` argument'
+                                % (u.mod.rel, d.lineno, ast.unparse(d)))
+        try:
+            v = const_value(A, u.mod, u.cls, prec[0])
+        except _NotConstant as ex:
+            raise AnalysisError('%s:%d decorator %s scopes a Decimal context but its precision argument cannot be evaluated '
+                                'as a constant expression (%s)' % (u.mod.rel, d.lineno, ast.unparse(d), ex))
+        if isinstance(v, int) and not isinstance(v, bool) and v >= 1:
+            return '@%s(prec=%d)' % (fn.name, v), None
+        return None, 'its decorator %s evaluates the precision to %r, which a Decimal context rejects (valid: an int >= 1): ' \
+                     'every decorated call raises instead of computing under a context' % (ast.unparse(d), v)
+    return None, None
+
+
+def context_decorator(A, u):
+    """`@precision(prec=N)`: the decorator resolves to a definition in the analysed packages that - checked on every run -
+    scopes the decimal context around the decorated call (see analyse_decorator), and N evaluates (constant expression
+    through the index) to a positive int -> description, else None (no context: what it decorates is uncovered)"""
+    return scoping_decorator_state(A, u)[0]
 
 
 def rule_decimal(chk, A):
@@ -2705,6 +2797,9 @@ def rule_decimal(chk, A):
             inside[id(u)] = explicit_context_nodes(u) if 'localcontext' in u.mod.src else set()
         return deco[id(u)], inside[id(u)]
     def dead_note(u):
+        problem = scoping_decorator_state(A, u)[1]
+        if problem:
+            return ' (%s)' % problem
         for dd in u.node.decorator_list:
             dfn = _resolve_decorator(A, u, dd)
             if dfn is not None and decorator_definition_kind(dfn) != 'context':
@@ -3073,8 +3168,12 @@ def rule_decorators(chk, A):
                 chk.exempt(R_DECO, u.path if u else '', '%s @%s' % (u.qual if u else 'class', key),
                            'memoising decorator: the cache is process-wide state; the returned object is treated as shared '
                            '(any mutation of it is a C02.shared-write site)', 'memo', raw.lineno)
-        elif u is not None and context_decorator(A, u):
-            chk.ok(R_DECO, path, '@' + key, 'runs the function under an explicit decimal context', raw.lineno)
+        elif u is not None and (context_decorator(A, u) or (
+                _resolve_decorator(A, u, raw) is not None
+                and decorator_definition_kind(_resolve_decorator(A, u, raw)) == 'context')):
+            chk.ok(R_DECO, path, '@' + key, 'defined in the analysed packages, classified from its definition as scoping: runs '
+                   'the call under an explicit decimal context (the precision given at each use is judged by %s)' % R_DEC,
+                   raw.lineno)
         elif u is not None and _resolve_decorator(A, u, raw) is not None \
                 and decorator_definition_kind(_resolve_decorator(A, u, raw)) in ('identity', 'wrapper', 'import-time'):
             kind_, _ids, desc_ = analyse_decorator(_resolve_decorator(A, u, raw))
